@@ -363,6 +363,9 @@ def valid_ops(rng: random.Random, s: State, tune: dict) -> list[tuple[str, float
             out.append((f'deal_hole {_cards_text(cs)} {j}', 1.5))
             out.append((f'deal_hole {_cards_text(cs[:min(k, pend)])} -', 0.7))
         out.append((f'deal_hole #{pj} {j}', 1))
+        if pj >= 2 and s.deck_cards and rng.random() < 0.3:
+            c = repr(rng.choice(list(s.deck_cards)))
+            out.append((f'deal_hole {c}{c} {j}', 0.6))      # the same card named twice
         if tune.get('unknown'):
             out.append((f'deal_hole {"??" * k} {j}', 0.7))
     if s.can_deal_board():
@@ -372,6 +375,9 @@ def valid_ops(rng: random.Random, s: State, tune: dict) -> list[tuple[str, float
         out.append((f'deal_board #{k}', 1))
         if len(s.deck_cards) >= k:
             out.append((f'deal_board {_cards_text(rng.sample(list(s.deck_cards), k))}', 1.5))
+        if c >= 2 and s.deck_cards and rng.random() < 0.3:
+            d = repr(rng.choice(list(s.deck_cards)))
+            out.append((f'deal_board {d}{d}', 0.6))          # the same card named twice
     if s.can_stand_pat_or_discard():
         i = s.stander_pat_or_discarder_index
         own = list(s.hole_cards[i])
